@@ -337,6 +337,7 @@ int main(int argc, char** argv)
         p.maxFrames = tier ? 200 : 60;
         p.endpoints = 4;
         p.allowGarbage = false;
+        p.bigSegmentHistories = 12;
         return rc::gen::map(genFrameHistory(p), [](FrameHistory h) {
             Case c;
             c.hist = std::move(h);
